@@ -344,6 +344,7 @@ def build(p):
   # "every hyper-parameter combination" reaches the view through the public entry point: hparams + keyword overrides
   from . import C03
   p.native('ClientDataset.', D, 'entry')
+  p.native('ClientDataset.__', D, 'sliced')
   C03.v_entry_points(p, only=('shuffle_repeat_batch',))
   C03.v_view_stateless(p, ('ShuffleRepeatBatchView',))
   p.trust(
